@@ -385,11 +385,16 @@ def xlsb_workbook_part(sheets, tail, rng, states=None):
     return wb
 
 
-def xlsb_bytes(sheets, sheet_cells, tail, rng, states=None, tables=None):
-    """tables: per sheet, the records of the cell table when the caller built them (else None)"""
+def xlsb_bytes(sheets, sheet_cells, tail, rng, states=None, tables=None, charts=()):
+    """tables: per sheet, the records of the cell table when the caller built them (else None);
+    charts: indices of sheets written as CHART sheets (relationship type chartsheet, a part without
+    sheet data): they keep their place in the BrtBundleSh list, which is what XTIs index"""
     n = len(sheets)
     rels = [DECL, '<Relationships xmlns="%s">' % NS_PR]
     for i in range(n):
+        if i in charts:
+            rels.append('<Relationship Id="rId%d" Type="%s/chartsheet" Target="chartsheets/sheet%d.bin"/>' % (i + 1, NS_R, i + 1))
+            continue
         rels.append('<Relationship Id="rId%d" Type="%s/worksheet" Target="worksheets/sheet%d.bin"/>' % (i + 1, NS_R, i + 1))
     rels.append("</Relationships>")
     ct = (DECL + '<Types xmlns="http://schemas.openxmlformats.org/package/2006/content-types">'
@@ -400,6 +405,9 @@ def xlsb_bytes(sheets, sheet_cells, tail, rng, states=None, tables=None):
              ("xl/workbook.bin", xlsb_workbook_part(sheets, tail, rng, states)),
              ("xl/_rels/workbook.bin.rels", "".join(rels))]
     for i in range(n):
+        if i in charts:
+            parts.append(("xl/chartsheets/sheet%d.bin" % (i + 1), brec(0x0081) + brec(0x0082)))
+            continue
         parts.append(("xl/worksheets/sheet%d.bin" % (i + 1),
                       xlsb_sheet_part(sheet_cells[i], rng, table=tables[i] if tables else None)))
     return zip_pack(rng, parts)
